@@ -43,4 +43,3 @@ Proof.
   intros w s e Hw HS Hc Hs. apply (step_all iface_holds); [apply wf_world_config, Hw|exact HS|exact Hc|exact Hs].
 Qed.
 
-Print Assumptions P01_step.
